@@ -27,6 +27,7 @@ val_of = CHS.accessor(1, 0)
 _U = z3.Datatype('RbUnit')
 _U.declare('ub', ('ub_b', IntS))
 _U.declare('um', ('um_e', EXC))
+_U.declare('ue')                       # end-of-file mark (only in the stream written to a redirection target)
 UNIT = _U.create()
 US = z3.SeqSort(UNIT)
 import pyvc.values as _vals
